@@ -40,6 +40,11 @@ class _QuietNSE(NetworkServiceElement):
 class DevApp(ApplicationIOController, WhoIsIAmServices, ReadWritePropertyServices, ReadWritePropertyMultipleServices,
              ChangeOfValueServices, DeviceCommunicationControlServices, FileServices):
 
+    def do_IAmRequest(self, apdu):
+        """The application keeps what peers announce about themselves (as the library's samples do)."""
+        WhoIsIAmServices.do_IAmRequest(self, apdu)
+        self.deviceInfoCache.iam_device_info(apdu)
+
     def do_ConfirmedPrivateTransferRequest(self, apdu):
         """A vendor service whose outcome the application decides: acknowledgement, abort raised as an exception, abort
         handed over as a PDU, reject, error (service number 1..5)."""
